@@ -271,6 +271,18 @@ theorem reachable_sorted (hc : c.Lawful) (he : EraseOrder c P) (s : SortedDeque 
   obtain ⟨h3, h4⟩ := runRef_sorted hc _ (hs.abs_sorted he) ops rs _ h1
   exact ⟨hs.abs_sorted he, SortedDeque.iter_spec hs, h3, SortedDeque.iter_spec h2, h4⟩
 
+/-- **Present keys are found, on the model of the real code**, in every state under the
+invariant (not only on the reference, and not only from `[]`): `find(key x)` returns `x`
+itself - key and value - for every present `x`, and an item `find` returns is present. -/
+theorem present_key_found_impl (hc : c.Lawful) (he : EraseOrder c P) (s : SortedDeque α) (hs : SInv c P s) :
+    (∀ x ∈ abs c s, SortedDeque.find c s (c.key x) = some (some x)) ∧
+    (∀ k y, SortedDeque.find c s k = some (some y) → y ∈ abs c s ∧ c.cmp (c.key y) k = .eq) := by
+  refine ⟨fun x hx => ?_, fun k y h => ?_⟩
+  · rw [SortedDeque.find_spec hc he hs, find_present hc (hs.abs_sorted he) hx]
+  · rw [SortedDeque.find_spec hc he hs] at h
+    simp only [Option.some.injEq] at h
+    exact ⟨List.mem_of_find?_eq_some h, by simpa using List.find?_some h⟩
+
 /-- **Gone stays gone** (reference map, any later state).  Let some operation make a
 present item `x` vanish from the (strictly sorted) map - `remove` of its key, a
 `pop_first` / `pop_last` that returned it, or `clear`.  Then along EVERY continuation `ops`
